@@ -38,6 +38,8 @@ def make_units(tier):
             units.append({'cls': cls, 'framing': framing, 'fs': 64, 'mode': 'large'})
             if tier == 'thorough':
                 units.append({'cls': cls, 'framing': framing, 'fs': 1000, 'mode': 'large'})
+    for fs in (64, 97) if tier == 'quick' else (64, 65, 97, 255):
+        units.append({'cls': 'sender', 'framing': None, 'fs': fs, 'mode': 'sender'})
     return units
 
 
@@ -221,7 +223,72 @@ def lengths(unit):
     return [(d, m) for d in (10000, 70000) for m in (0, 1, 10000)] + [(0, 10000), (1, 70000), (0, 70000)]
 
 
+
+def through_sender(flavour, fs, kind, d, m, part):
+    """The same clauses observed where the property puts them - at the transport of a real endpoint: the sender asks the transport
+    whether it has a length prefix and hands that to the fragmenter. A request of every fragmentable kind whose whole frame is
+    around the limit: one frame if it fits, no fragment over the limit, the payload reassembles exactly."""
+    from mc.app import P, RecSubscriber
+    from mc.solo import Solo
+    s = Solo('client', flavour, fragment_size_bytes=fs)
+    try:
+        data, md = _PAT[:d], (_PATM[:m] if m else None)
+        if kind == 'rr':
+            s.sock.request_response(P(data, md))
+        elif kind == 'fnf':
+            s.sock.fire_and_forget(P(data, md))
+        elif kind == 'stream':
+            s.sock.request_stream(P(data, md)).initial_request_n(3).subscribe(RecSubscriber(s.w, s.ep, 'sub'))
+        else:
+            s.sock.request_channel(P(data, md)).initial_request_n(3).subscribe(RecSubscriber(s.w, s.ep, 'sub'))
+        s.settle()
+        fr = s.sent_on(1)
+        prefixed = s.conn.stream
+        header = 6 + (4 if kind in ('stream', 'channel') else 0)
+        whole = header + d + ((3 + m) if m else 0) + (3 if prefixed else 0)
+        tag = 'through-sender | %s | framing=%s' % (kind, 'prefixed' if prefixed else 'message')
+        wit = {'kind': 'through-sender', 'flavour': flavour, 'fs': fs, 'req': kind, 'd': d, 'm': m}
+        part.evaluations += 1
+        part.traces += 1
+        part.transitions += len(fr)
+        part.state(('sender', flavour, fs, kind, len(fr), whole <= fs))
+        if len(fr) >= 2:
+            part.nontriv(('sender', flavour, fs, kind, d, m))
+        if not fr:
+            part.violate('C03.fits-single', 'C03.fits-single | %s | nothing-sent' % tag, 'no frame on the wire (fs=%d data=%d metadata=%d)' % (fs, d, m), wit)
+            return
+        if whole <= fs and len(fr) != 1:
+            part.violate('C03.fits-single', 'C03.fits-single | %s' % tag,
+                         'frame of %d wire bytes fits in %d but the endpoint sent %s (data=%d metadata=%d)' % (whole, fs, [(f.name, len(f.raw)) for f in fr], d, m), wit)
+        if not m:  # fragments carrying metadata: see the recorded finding (up to 3 bytes over), judged by the direct part
+            for f in fr:
+                if len(f.raw) + (3 if prefixed else 0) > fs:
+                    part.violate('C03.size-limit', 'C03.size-limit | %s' % tag, 'a fragment of %d wire bytes with fragment size %d (data=%d)' % (len(f.raw) + (3 if prefixed else 0), fs, d), wit)
+                    break
+        got_d = b''.join(bytes(f.data or b'') for f in fr)
+        got_m = b''.join(bytes(f.metadata or b'') for f in fr)
+        if got_d != bytes(data) or got_m != bytes(md or b''):
+            part.violate('C03.reassembly-exact', 'C03.reassembly-exact | %s' % tag, 'fragments carry %d data / %d metadata bytes, sent %d / %d' % (len(got_d), len(got_m), d, m), wit)
+        if any(not f.follows for f in fr[:-1]) or fr[-1].follows:
+            part.violate('C03.follows-flags', 'C03.follows-flags | %s' % tag, 'FOLLOWS flags %s' % [f.follows for f in fr], wit)
+    finally:
+        s.teardown()
+
+
 def run_unit(unit, part):
+    if unit.get('mode') == 'sender':
+        fs = unit['fs']
+        for kind in ('rr', 'fnf', 'stream', 'channel'):
+            header = 6 + (4 if kind in ('stream', 'channel') else 0)
+            for flavour in ('tcp', 'msg', 'quic', 'wsk'):
+                lim = fs - header - (3 if flavour in ('tcp', 'quic') else 0)
+                for d in list(range(lim - 5, lim + 5)) + [2 * lim, 2 * lim + 1]:
+                    through_sender(flavour, fs, kind, d, 0, part)
+                for m in (1, 7):
+                    for d in range(lim - 3 - m - 4, lim - 3 - m + 2):
+                        through_sender(flavour, fs, kind, d, m, part)
+        part.sample({'mode': 'through-sender', 'fs': fs, 'links': ['tcp', 'msg', 'quic', 'wsk'], 'kinds': ['rr', 'fnf', 'stream', 'channel']}, limit=1)
+        return
     vs = variants(unit['cls'])
     pairs = lengths(unit)
     for (d, m) in pairs:
@@ -239,6 +306,11 @@ def replay(rec):
     from mc.runner import Partial
     w = rec['witness']
     p = Partial()
+    if w.get('kind') == 'through-sender':
+        through_sender(w['flavour'], w['fs'], w['req'], w['d'], w['m'], p)
+        for v in p.violations.values():
+            print(v.rule, v.detail)
+        return rec['signature'] in p.violations
     check_case(w['unit'], w['d'], w['m'], tuple(w['variant']), p)
     for v in p.violations.values():
         print(v.rule, v.detail)
